@@ -47,6 +47,25 @@ func (f *RunningEventFilter) ensureInit() error {
 	return f.initErr
 }
 
+// Reset drops the in-memory state of a lazily initialised filter, so that the next access
+// rebuilds it from the database. The filter is mutated inside the caller's batch closure
+// ([RunningEventFilter.InsertWithBatch], [RunningEventFilter.OnReorgWithBatch]); when that
+// batch is then not committed the filter would run ahead of (or behind) the chain on disk.
+// Callers invoke Reset whenever the surrounding write did not succeed. A filter that was
+// constructed hot has no initializer and is left untouched.
+func (f *RunningEventFilter) Reset() {
+	f.mu.Lock()
+	defer f.mu.Unlock()
+
+	if f.initialize == nil {
+		return
+	}
+	f.inner = nil
+	f.next = 0
+	f.initErr = nil
+	f.lazyOnce = sync.Once{}
+}
+
 // NewRunningEventFilterHot returns a RunningEventFilter that wraps the provided
 // aggregated filter with the expected next block to process.
 func NewRunningEventFilterHot(
